@@ -2,38 +2,41 @@ From Coq Require Import List String Bool Arith Lia.
 Require Import DriverTypes Driver.
 Import ListNotations.
 
-(* once the association is closed, the next Write or Read stops the process *)
+(* once the peer has closed: the next Write, or the Read after the last readable message, stops the process *)
 Lemma closed_exits : forall evs f s n,
-  closed s = true -> wr_checked evs = true -> existsb is_io evs = true ->
+  closed s = true -> wr_checked evs = true -> stops evs (readable s) = true ->
   exists m, run f evs s n = Exit1 m /\ n <= m.
 Proof.
   induction evs as [|e evs IH]; intros f s n Hc Hw Hio; [discriminate Hio|].
   cbn [wr_checked forallb] in Hw. apply andb_true_iff in Hw. destruct Hw as [He Hw].
   destruct e as [k c w|u]; [|discriminate He].
-  destruct k; cbn [run is_io existsb orb] in *.
+  destruct k; cbn [run stops] in *.
   - rewrite Hc. rewrite He. exists n. split; [reflexivity | lia].
-  - rewrite Hc. rewrite He. exists n. split; [reflexivity | lia].
+  - rewrite Hc. destruct (readable s) as [|m0] eqn:Er.
+    + rewrite He. exists n. split; [reflexivity | lia].
+    + destruct (IH f {| wcount := wcount s; closed := true; readable := m0; gpending := None; lastbad := false |} (S n) eq_refl Hw Hio) as [m [E L]].
+      exists m. split; [exact E | lia].
   - destruct (lastbad s); [destruct c|].
     + exists n. split; [reflexivity | lia].
-    + destruct (IH f {| wcount := wcount s; closed := closed s; gpending := gpending s; lastbad := false |} (S n) Hc Hw Hio) as [m [E L]].
+    + destruct (IH f {| wcount := wcount s; closed := closed s; readable := readable s; gpending := gpending s; lastbad := false |} (S n) Hc Hw Hio) as [m [E L]].
       exists m. split; [exact E | lia].
     + destruct (IH f s (S n) Hc Hw Hio) as [m [E L]]. exists m. split; [exact E | lia].
   - destruct (IH f s (S n) Hc Hw Hio) as [m [E L]]. exists m. split; [exact E | lia].
 Qed.
 
-Lemma close_exits : forall evs s n d,
-  closed s = false -> wr_checked evs = true -> io_after_w evs d = true ->
-  exists m, run (FClose (wcount s + d)) evs s n = Exit1 m /\ n <= m.
+Lemma close_exits : forall evs s n d k,
+  closed s = false -> wr_checked evs = true -> io_after_w evs d k = true ->
+  exists m, run (FClose (wcount s + d) k) evs s n = Exit1 m /\ n <= m.
 Proof.
-  induction evs as [|e evs IH]; intros s n d Hc Hw Hio; [discriminate Hio|].
+  induction evs as [|e evs IH]; intros s n d k0 Hc Hw Hio; [discriminate Hio|].
   cbn [wr_checked forallb] in Hw. apply andb_true_iff in Hw. destruct Hw as [He Hw].
   destruct e as [k c w|u]; [|discriminate He].
   destruct k; cbn [run io_after_w] in *.
   - rewrite Hc. destruct d as [|d].
-    + destruct (closed_exits evs (FClose (wcount s + 0)) (after_write (FClose (wcount s + 0)) s) (S n)) as [m [E L]]; try assumption.
+    + destruct (closed_exits evs (FClose (wcount s + 0) k0) (after_write (FClose (wcount s + 0) k0) s) (S n)) as [m [E L]]; try assumption.
       { cbn [after_write closed]. apply Nat.eqb_eq. lia. }
       exists m. split; [exact E | lia].
-    + specialize (IH (after_write (FClose (wcount s + S d)) s) (S n) d).
+    + specialize (IH (after_write (FClose (wcount s + S d) k0) s) (S n) d k0).
       cbn [after_write closed wcount] in IH.
       replace (S (wcount s) + d) with (wcount s + S d) in IH by lia.
       destruct IH as [m [E L]]; try assumption.
@@ -41,34 +44,35 @@ Proof.
       exists m. split; [exact E | lia].
   - rewrite Hc. destruct (gpending s) as [[|q]|];
       match goal with |- context [run ?f evs ?s' (S n)] =>
-        destruct (IH s' (S n) d eq_refl Hw Hio) as [m [E L]]; cbn [wcount] in E; exists m; split; [exact E | lia] end.
+        destruct (IH s' (S n) d k0 eq_refl Hw Hio) as [m [E L]]; cbn [wcount] in E; exists m; split; [exact E | lia] end.
   - destruct (lastbad s); [destruct c|].
     + exists n. split; [reflexivity | lia].
-    + destruct (IH {| wcount := wcount s; closed := closed s; gpending := gpending s; lastbad := false |} (S n) d Hc Hw Hio) as [m [E L]].
+    + destruct (IH {| wcount := wcount s; closed := closed s; readable := readable s; gpending := gpending s; lastbad := false |} (S n) d k0 Hc Hw Hio) as [m [E L]].
       cbn [wcount] in E. exists m. split; [exact E | lia].
-    + destruct (IH s (S n) d Hc Hw Hio) as [m [E L]]. exists m. split; [exact E | lia].
-  - destruct (IH s (S n) d Hc Hw Hio) as [m [E L]]. exists m. split; [exact E | lia].
+    + destruct (IH s (S n) d k0 Hc Hw Hio) as [m [E L]]. exists m. split; [exact E | lia].
+  - destruct (IH s (S n) d k0 Hc Hw Hio) as [m [E L]]. exists m. split; [exact E | lia].
 Qed.
 
-Theorem close_fail_stop evs j :
-  wr_checked evs = true -> io_after_w evs j = true ->
-  exists m, run (FClose j) evs pst0 0 = Exit1 m /\ m < List.length evs.
+Lemma exit_index_in_range : forall evs f s n m, run f evs s n = Exit1 m -> m < n + List.length evs.
 Proof.
-  intros Hw Hio. destruct (close_exits evs pst0 0 j eq_refl Hw Hio) as [m [E _]]. cbn [pst0 wcount Nat.add] in E.
-  exists m. split; [exact E|].
-  (* the index of the stopping event is a position in the list *)
-  assert (G : forall evs f s n m, run f evs s n = Exit1 m -> m < n + List.length evs).
-  { clear. induction evs as [|e evs IH]; intros f s n m H; [discriminate H|].
-    destruct e as [k c w|u]; cbn [run List.length] in H |- *.
-    - destruct k.
-      + destruct (closed s); [destruct c; [injection H as <-; lia|]|]; apply IH in H; lia.
-      + destruct (closed s); [destruct c; [injection H as <-; lia|]|].
-        * apply IH in H; lia.
-        * destruct (gpending s) as [[|q]|]; apply IH in H; lia.
-      + destruct (lastbad s); [destruct c; [injection H as <-; lia|]|]; apply IH in H; lia.
-      + apply IH in H; lia.
-    - apply IH in H; lia. }
-  apply G in E. lia.
+  induction evs as [|e evs IH]; intros f s n m H; [discriminate H|].
+  destruct e as [k c w|u]; cbn [run List.length] in H |- *.
+  - destruct k.
+    + destruct (closed s); [destruct c; [injection H as <-; lia|]|]; apply IH in H; lia.
+    + destruct (closed s).
+      * destruct (readable s); [destruct c; [injection H as <-; lia|]|]; apply IH in H; lia.
+      * destruct (gpending s) as [[|q]|]; apply IH in H; lia.
+    + destruct (lastbad s); [destruct c; [injection H as <-; lia|]|]; apply IH in H; lia.
+    + apply IH in H; lia.
+  - apply IH in H; lia.
+Qed.
+
+Theorem close_fail_stop evs j k :
+  wr_checked evs = true -> io_after_w evs j k = true ->
+  exists m, run (FClose j k) evs pst0 0 = Exit1 m /\ m < List.length evs.
+Proof.
+  intros Hw Hio. destruct (close_exits evs pst0 0 j k eq_refl Hw Hio) as [m [E _]]. cbn [pst0 wcount Nat.add] in E.
+  exists m. split; [exact E|]. apply exit_index_in_range in E. lia.
 Qed.
 
 (* garbage: three phases *)
@@ -123,7 +127,7 @@ Proof.
     + rewrite Hc. destruct (gpending s) as [[|q']|];
         match goal with |- context [run ?f evs ?s' (S n)] => apply (IH s' (S n) d q eq_refl Hr) end.
     + destruct (lastbad s); [destruct c; [eexists; reflexivity|]|].
-      * apply (IH {| wcount := wcount s; closed := closed s; gpending := gpending s; lastbad := false |} (S n) d q Hc Hr).
+      * apply (IH {| wcount := wcount s; closed := closed s; readable := readable s; gpending := gpending s; lastbad := false |} (S n) d q Hc Hr).
       * apply (IH s (S n) d q Hc Hr).
     + apply (IH s (S n) d q Hc Hr).
   - apply (IH s (S n) d q Hc Hr).
@@ -199,8 +203,8 @@ Proof.
   rewrite forallb_forall in Hs. specialize (Hs _ Hin). unfold skeleton_ok in Hs. apply andb_true_iff in Hs. apply Hs.
 Qed.
 
-Theorem conversation_close_fail_stop skels w c j :
+Theorem conversation_close_fail_stop skels w c j k :
   forallb skeleton_ok skels = true -> bounds_ok w = true ->
-  io_after_w (conversation_of skels w c) j = true ->
-  exists m, run (FClose j) (conversation_of skels w c) pst0 0 = Exit1 m /\ m < List.length (conversation_of skels w c).
+  io_after_w (conversation_of skels w c) j k = true ->
+  exists m, run (FClose j k) (conversation_of skels w c) pst0 0 = Exit1 m /\ m < List.length (conversation_of skels w c).
 Proof. intros Hs Hb Hio. apply close_fail_stop; [apply conversation_wr_checked; assumption | exact Hio]. Qed.
